@@ -2,6 +2,7 @@ import PromModel.Tsdb.Intervals
 import PromProofs.IntervalsAdd
 import PromProofs.IntervalsIter
 import PromProofs.IntervalsJudge
+import PromProofs.Tombstones
 /-
   C20 — Deletion removes exactly the requested data (mechanism level).
   Property theorems only; helper lemmas live in PromProofs.
@@ -116,5 +117,71 @@ example :
   intro op hop
   simp only [List.mem_cons, List.mem_nil_iff, or_false] at hop
   rcases hop with rfl | rfl | rfl | rfl | rfl <;> simp [OpInRange, I64, MinI64, MaxI64]
+
+/-! ### tombstone codec and file: read back exactly what was written -/
+
+open Prom.Tombstones in
+/-- `Decode (Encode x) = x` for every well-formed store (any number of series and intervals, refs up
+    to 2^64-1, timestamps over all of int64). -/
+theorem tombstone_codec_roundtrip (st : Stones) (h : WF st) : decode (encode st) = .ok st :=
+  decode_encode st h
+
+open Prom.Tombstones in
+/-- `ReadTombstones (WriteFile x) = x`, with CRC32 an arbitrary function (uninterpreted). -/
+theorem tombstone_file_roundtrip (crc : Bytes → UInt32) (st : Stones) (h : WF st) :
+    readFile crc (encodeFile crc st) = .ok st :=
+  readFile_encodeFile crc st h
+
+open Prom.Tombstones in
+theorem uvarint_roundtrip (x : Nat) (rest : Bytes) (hx : x < 2 ^ 64) :
+    getUvarint (putUvarint x ++ rest) = some (x, rest) := getUvarint_put x rest hx
+
+open Prom.Tombstones in
+theorem varint_roundtrip (x : Int) (rest : Bytes) (hx : I64 x) :
+    getVarint (putVarint x ++ rest) = some (x, rest) := getVarint_put x rest hx
+
+open Prom.Tombstones in
+/-- A well-formed store with the extreme reference and extreme timestamps. -/
+example : WF [(0, [⟨MinI64, -5⟩, ⟨3, 4⟩]), (2 ^ 64 - 1, [⟨7, MaxI64⟩])] := by
+  refine ⟨by decide, ?_⟩
+  intro p hp
+  simp only [List.mem_cons, List.mem_nil_iff, or_false] at hp
+  rcases hp with rfl | rfl
+  · refine ⟨by decide, by simp, by decide, ?_⟩
+    intro x hx
+    simp only [List.mem_cons, List.mem_nil_iff, or_false] at hx
+    rcases hx with rfl | rfl <;> simp [I64, MinI64, MaxI64]
+  · refine ⟨by decide, by simp, by decide, ?_⟩
+    intro x hx
+    simp only [List.mem_cons, List.mem_nil_iff, or_false] at hx
+    rcases hx with rfl <;> simp [I64, MinI64, MaxI64]
+
+open Prom.Tombstones in
+/-- Canonicity is needed for the read-back: `Decode` re-adds every interval, so a store holding two
+    adjacent intervals (which `AddInterval` never produces) comes back merged. -/
+theorem roundtrip_needs_canonical_witness :
+    decode (encode [(1, [⟨1, 2⟩, ⟨3, 4⟩])]) = .ok [(1, [⟨1, 4⟩])] := by rfl
+
+open Prom.Tombstones in
+/-- Observed in the real code (reproduced by suite `tombfile`): a tombstones file of exactly 8 bytes
+    that starts with the magic number makes `ReadTombstones` panic (`d.Get()[1:]` on an empty body)
+    instead of returning an error. Such a file is never produced by `WriteFile`. -/
+theorem read_8_byte_file_panics_witness (crc : Bytes → UInt32) (c : Bytes) (hc : c.length = 4) :
+    readFile crc (be32 magic ++ c) = .error .panic := by
+  have hm : be32dec (be32 magic) = magic := be32dec_be32 magic (by decide)
+  have hl : (be32 magic ++ c).length = 8 := by simp [be32_length, hc]
+  unfold readFile
+  rw [hl]
+  have ht : (be32 magic ++ c).take (8 - 4) = be32 magic := by
+    rw [List.take_append_of_le_length (by simp [be32_length])]
+    exact List.take_of_length_le (by simp [be32_length])
+  simp only [ht]
+  rw [if_neg (by omega), if_neg (by simp [be32_length])]
+  have ht4 : (be32 magic).take 4 = be32 magic := List.take_of_length_le (by simp [be32_length])
+  rw [ht4, hm]
+  simp only [ne_eq, not_true_eq_false, if_false]
+  have hd : (be32 magic).drop 4 = [] := List.drop_of_length_le (by simp [be32_length])
+  rw [hd]
+  rfl
 
 end Prom.C20
